@@ -547,6 +547,9 @@ impl Clone for %s {
         txt = self.r24_take_while_map(txt)
         txt = self.r26_btree_next_after(txt)
         txt = self.r28_keys_map(txt)
+        # R29: `std::fs::read_dir(` -> `crate::vshim::read_dir(` (ReadDir is a foreign iterator type: stand-in DirIter)
+        txt, k29 = re.subn(r'\b(?:std::)?fs::read_dir\(', 'crate::vshim::read_dir(', txt)
+        self.rules.hit('R29', k29)
         return txt
 
     def r22_range_bounds(self, txt):
